@@ -52,6 +52,12 @@ PropC05x(e) == (e.ev = "parse" /\ "want" \in DOMAIN e) =>
   /\ (e.errs = <<>>) = e.want.ok
   /\ e.want.ok => Len(e.msgs) = 1 /\ e.warns = <<>> /\ Real(e).msgs[1].item = e.want.item
   /\ ~e.want.ok => e.msgs = <<>>
+\* TLC -> Go: a sized literal MCSizes enumerated, with the verdict stated on the numbers and the place of the declaration
+PropC15x(e) == (e.ev = "parse" /\ "want" \in DOMAIN e /\ "at" \in DOMAIN e.want) =>
+  /\ e.outcome = "returned" /\ e.text = e.want.text
+  /\ (e.errs = <<>>) = e.want.ok
+  /\ e.want.ok => Len(e.msgs) = 1 /\ (LET it == Real(e).msgs[1].item IN (IF it.f = "A" THEN Len(it.s) ELSE Len(it.e)) = e.want.count)
+  /\ ~e.want.ok => e.msgs = <<>> /\ Pos(e.errs) = <<e.want.at>>
 PropC15(e) == PropC05(e) /\ (e.ev = "parse" => Real(e).errs = Model(e).errs)      \* ... reported at the declaration
 
 \* ------------------------------------------------------------------ model agreement (drift only)
@@ -160,6 +166,7 @@ InvC06 == l > 0 => PropC06(E)
 InvC05 == l > 0 => PropC05(E)
 InvC05x == l > 0 => PropC05x(E)
 InvC15 == l > 0 => PropC15(E)
+InvC15x == l > 0 => PropC15x(E)
 InvAgreeParse == l > 0 => AgreeParse(E)
 InvAgreeLex == l > 0 => AgreeLex(E)
 InvC04 == l > 0 => PropC04(E)
